@@ -190,6 +190,7 @@ def run(ctx):
     cfgs = [(1, 3), (3, 1), (2, 2), (3, 4), (4, 4), (1, 7), (5, 3)]
     cfgs += [(int(nprng.integers(2, 12)), int(nprng.integers(2, 12))) for _ in range(4 if quick else 40)]
     nth = 0
+    nfull = 0
     for (nx, ny) in cfgs:
         tot = nx * ny
         ks = sorted({1, 2, 3, tot, max(1, tot // 2)} & set(range(1, tot + 1)))
@@ -228,6 +229,18 @@ def run(ctx):
                     ref = by_position(h_grid)
                     gotp = by_position(h_sub)
                     d2 = max(float(np.max(np.abs(gotp[p] - ref[p]))) for p in gotp) if set(gotp) <= set(ref) else float("inf")
+                    # the full frame rebuilt from what the subset remembers (a fit result's model image) has the
+                    # values of the direct calculation at the same positions
+                    if nx >= 2 and ny >= 2:
+                        from holopy.inference import ExactModel
+                        from holopy.inference.result import FitResult
+                        mdl = ExactModel(scat, calc_holo, theory=theory if theory is not None else "auto",
+                                         illum_polarization=kw["illum_polarization"])
+                        full = FitResult(sub, mdl, None, 0.0, {"intervals": []}).hologram
+                        gotf = by_position(full)
+                        d3 = max(float(np.max(np.abs(gotf[p] - ref[p]))) for p in ref) if set(gotf) == set(ref) else float("inf")
+                        d2 = max(d2, d3)
+                        nfull += 1
                     traces.append([{
                         "event": "Subset", "nx": nx, "ny": ny, "k": k, "seed": seed,
                         "sel": [int(s) for s in sel], "xi": [int(v) for v in xi], "yj": [int(v) for v in yj],
@@ -265,6 +278,9 @@ def run(ctx):
                 "input_untouched": bool(fp.fingerprint(img) == keep), "mb_commute": -20000, "theory": "none (two-colour image)"}])
         except Exception as e:
             ctx.violation("subset/exception", {"shape": [nx, ny], "k": k, "seed": seed, "theory": "two-colour image", "exc": repr(e)[:300]})
+    ctx.notes["full_frames_rebuilt_from_subsets"] = nfull
+    if nfull < 10:
+        raise harness.MachineryError("only %d full frames rebuilt from subsets" % nfull)
     verdicts = tracemod.validate(ctx, "DetectorViewsTrace", traces)
     for tr, (acc, line, clauses) in zip(traces, verdicts):
         if acc:
